@@ -145,15 +145,17 @@ def run(tier):
                             "PLApproximate %s did not return (%s)" % (inp, json.dumps(e)[:200]), payload)
             else:
                 v.violation("%s:%s" % (w["k"], case_key(k)), "trace rejected (%s) for %s" % (json.dumps(w)[:200], inp), payload)
-    # non-vacuity: the situations the clauses speak about must have occurred
-    for need in ("done", "periodic", "onePerInt", "refused"):
-        if not met.get(need):
-            raise Broken("no call in this run met the situation '%s' (clause vacuous): %s" % (need, met))
     byclause = {}
     for key, _, _ in v.viol:
         byclause[key.split(":")[0]] = byclause.get(key.split(":")[0], 0) + 1
     log("[%s] rejected by clause: %s" % (PID.lower(), json.dumps(byclause, sort_keys=True)))
     rcode, nnew = v.finish()
+    # non-vacuity: the situations the clauses speak about must have occurred (unless the
+    # run already reports violations, e.g. every periodic call hanging)
+    if rcode == 0:
+        for need in ("done", "periodic", "onePerInt", "refused"):
+            if not met.get(need):
+                raise Broken("no call in this run met the situation '%s' (clause vacuous): %s" % (need, met))
     # concatenated trace kept for inspection / replay
     with open(os.path.join(outdir(PID), "trace-%s.ndjson" % tier), "w") as f:
         for tr, _ in runs:
